@@ -18,7 +18,7 @@ Toks(e) == [i \in 1..Len(e.toks) |-> Tok(e.toks[i])]
 
 KrChecks(e) ==
   LET toks == Toks(e) IN
-  Flag(Class(toks) = e.class, "TOOL_class")
+  Flag(e.class = "auto" \/ Class(toks) = e.class, "TOOL_class")      \* "auto": not classified by the producer of the scenario
   \cup Flag(~e.panic, "C17_parser_panicked")
   \cup Flag(~e.panic, "C09_panic_or_abort")            \* the same observation, reported by C09 on its own run of these texts
   \cup Flag(MustReject(toks) => ~e.accepted, "C17_accepted_incomplete_or_duplicate_keyring")
